@@ -136,7 +136,7 @@ CLAIMS = {
                  "implicit numbers = media_sequence + position, explicit numbers preserved), master_parser_is_builder, master_build_never_panics; the tag "
                  "builders' rules are C14. Tie: abstract contents realised as text, as push scripts with shuffled/interleaved setters and as segments(vec) "
                  "scripts must give the same status and observation on library and model and among each other; explicit numbers <= 64 through both paths "
-                 "(no panic, numbering rule); every built value's serialisation must re-parse to its content."),
+                 "(no panic, numbering rule); every built value's serialisation must re-parse to its content. String level (Props/C20Text.lean): builder_text_agree_text - for every text whose lines classify and whose line loop ends outside a segment, the parser's answer (accepted or rejected, and the value) IS build() of the builder holding the loop's setter calls and its implicitly numbered segments; accepted_text_builds - every accepted text has a builder state that builds exactly the parsed value."),
         "design_ref": "DESIGN.md §7 C20",
         "note": "Known finding K9 (a built EXT-X-MAP cannot carry its key coverage) is reported as KNOWN-FINDING; K3-shaped key histories belong to C03; K4 was repaired.",
     },
